@@ -1,0 +1,26 @@
+//! Verification hooks.  Only compiled with the `verif-hooks` cargo feature; never enabled by
+//! default.  They let an external test harness make the handshake's random fill deterministic
+//! (thread-local, so parallel harness threads do not interfere).
+
+use std::cell::RefCell;
+
+thread_local! {
+    static RANDOM_FILL: RefCell<Option<Box<dyn FnMut(&mut [u8])>>> = RefCell::new(None);
+}
+
+/// Installs (or with `None` removes) a replacement for the random byte source used by the
+/// handshake on the current thread.
+pub fn set_random_fill(source: Option<Box<dyn FnMut(&mut [u8])>>) {
+    RANDOM_FILL.with(|cell| *cell.borrow_mut() = source);
+}
+
+/// Fills the buffer from the installed source.  Returns false when no source is installed.
+pub(crate) fn try_fill(buffer: &mut [u8]) -> bool {
+    RANDOM_FILL.with(|cell| match cell.borrow_mut().as_mut() {
+        Some(source) => {
+            source(buffer);
+            true
+        }
+        None => false,
+    })
+}
